@@ -1364,6 +1364,110 @@ def fold_attribute_aliases(fdef, volatile=()):
     return fdef
 
 
+def fold_name_copies(fdef, func):
+    """a = b (a bound once, b a plain local / loop variable) makes a another
+    name for b's current value; when no use of a can see a later b - every
+    path from the copy to a use of a is free of assignments to b - the uses
+    of a are rewritten to b, so that rules matching on the loop variable
+    see through `victim = candidate`."""
+    from . import cfg as C
+    from . import norm as N
+    params = set(a.arg for a in fdef.args.posonlyargs + fdef.args.args +
+                 fdef.args.kwonlyargs)
+    counts, values, stmts_of = {}, {}, {}
+    other = set()
+    for node in ast.walk(fdef):
+        if isinstance(node, (ast.FunctionDef, ast.AsyncFunctionDef,
+                             ast.Lambda, ast.ClassDef)) and node is not fdef:
+            for sub in ast.walk(node):
+                if isinstance(sub, ast.Name):
+                    other.add(sub.id)
+        if isinstance(node, ast.Assign) and len(node.targets) == 1 and \
+                isinstance(node.targets[0], ast.Name):
+            name = node.targets[0].id
+            counts[name] = counts.get(name, 0) + 1
+            values[name] = node.value
+            stmts_of[name] = node
+    all_stores = {}
+    for node in ast.walk(fdef):
+        if isinstance(node, ast.Name) and isinstance(node.ctx,
+                                                     (ast.Store, ast.Del)):
+            all_stores[node.id] = all_stores.get(node.id, 0) + 1
+    cands = {}
+    for name, cnt in counts.items():
+        if cnt != 1 or all_stores.get(name, 0) != 1 or name in params or \
+                name in other:
+            continue
+        val = values[name]
+        if isinstance(val, ast.Name) and val.id != name and \
+                val.id not in other and not val.id.startswith('_inl_'):
+            cands[name] = val.id
+    if not cands:
+        return fdef
+    try:
+        graph = C.CFG(fdef.body, func)
+    except Exception:                     # pylint: disable=broad-except
+        return fdef
+    by_stmt = dict((id(n.ast), n) for n in graph.nodes
+                   if n.kind == 'stmt' and n.ast is not None)
+    accepted = {}
+    for name, src in cands.items():
+        dnode = by_stmt.get(id(stmts_of[name]))
+        if dnode is None:
+            continue
+        uses = set()
+        src_stores = set()
+        for node in graph.nodes:
+            if node.ast is None:
+                continue
+            roots = C.node_exprs(node) if node.kind != 'stmt' else [node.ast]
+            for root in roots:
+                if root is None:
+                    continue
+                for sub in ast.walk(root):
+                    if isinstance(sub, ast.Name) and sub.id == name and \
+                            isinstance(sub.ctx, ast.Load):
+                        uses.add(node)
+            if src in (N.assigned_targets(node) | N.for_targets(node)):
+                src_stores.add(node)
+        if not uses:
+            continue
+        dom = C.dominators(graph)
+        if not all(dnode in dom.get(u, ()) for u in uses):
+            continue
+        bad = False
+        for store in src_stores:
+            if store not in C.reach_after(dnode):
+                continue
+            if uses & C.reach_after(store, blocked=[dnode]):
+                bad = True
+        if not bad:
+            accepted[name] = src
+    if not accepted:
+        return fdef
+
+    class Fold(ast.NodeTransformer):
+        def visit_Name(self, node):
+            if node.id in accepted and isinstance(node.ctx, ast.Load):
+                return ast.copy_location(
+                    ast.Name(id=accepted[node.id], ctx=ast.Load()), node)
+            return node
+
+        def visit_FunctionDef(self, node):
+            if node is fdef:
+                return self.generic_visit(node)
+            return node
+
+        visit_AsyncFunctionDef = visit_ClassDef = visit_Lambda = \
+            visit_FunctionDef
+    Fold().visit(fdef)
+    for node in ast.walk(fdef):
+        if hasattr(node, '_inline_body'):
+            node._inline_body = [Fold().visit(st)
+                                 for st in node._inline_body]
+    return fdef
+
+
 def inline_function(index, func, resolver):
     """Deep copy of func.raw with private helpers inlined; returns
     (new FunctionDef, [inlined callee names])."""
@@ -1377,5 +1481,9 @@ def inline_function(index, func, resolver):
                         a.arg for a in func.raw.args.args)
     node.body = inl.process(func, node.body, [func.fq])
     node = fold_attribute_aliases(node, _volatile_attrs(func.module))
+    if inl.inlined:
+        # aliases introduced by unrolling / inlining (T = <yielded name>)
+        ast.fix_missing_locations(node)
+        node = fold_name_copies(node, func)
     ast.fix_missing_locations(node)
     return node, inl.inlined
